@@ -34,6 +34,10 @@ func c18(c *Ctx) {
 	c18claims(c)
 	c18bind(c)
 	c18fullBody(c)
+	// R11 (round 5): a route answers exactly the method it was registered (and signed) for — the router dispatches by the
+	// request's own method only; a HEAD served from the GET route would run GET handlers behind a gate that never
+	// verifies HEAD (seed r5-C18-2)
+	c09dispatchAs(c, "C18.R11", "C18.R11")
 }
 
 func c18jwt(c *Ctx) {
@@ -733,7 +737,55 @@ func c18cryption(c *Ctx) {
 		bad := writeRetainsArg(c, w)
 		c.R.Check(len(bad) == 0, rule, "rest/handler.(*cryptionResponseWriter).Write#copy", "Write copies p into the private buffer and does not keep p itself (io.Writer: \"Write must not retain p\"): a handler that streams from a reused buffer would otherwise overwrite what was collected before it is encrypted", posOf(c, w), fmt.Sprint(bad), nil, 1)
 	}
-	c.R.Min(rule, 4, "LimitCryptionHandler closure, Write (2), flush")
+	// one ciphertext per response: body bytes reach the client only from flush (the deferred finisher). base64 over ECB
+	// is decoded as one unit; pieces pushed out earlier (an encrypting Flush) end in padding characters of their own and
+	// the concatenation no longer decodes (seed r5-C18-3)
+	{
+		var bad []string
+		n := 0
+		for _, g := range c.P.AllFuncs("rest/handler") {
+			root := g
+			for root.Parent() != nil {
+				root = root.Parent()
+			}
+			if root.Signature.Recv() == nil || !strings.HasSuffix(typeString(root.Signature.Recv().Type()), "rest/handler.cryptionResponseWriter") {
+				continue
+			}
+			n++
+			for _, b := range g.Blocks {
+				for _, ins := range b.Instrs {
+					call, ok := ins.(ssa.CallInstruction)
+					if !ok {
+						continue
+					}
+					cc := call.Common()
+					writes := false
+					isUnder := func(v ssa.Value) bool {
+						for _, d := range reachingDefs(v, g, 0) {
+							if u, ok := d.(*ssa.UnOp); ok {
+								if fa, ok := u.X.(*ssa.FieldAddr); ok && fieldNameOf(fa) == "ResponseWriter" {
+									return true
+								}
+							}
+						}
+						return false
+					}
+					if cc.IsInvoke() && (cc.Method.Name() == "Write" || cc.Method.Name() == "WriteString") && isUnder(cc.Value) {
+						writes = true
+					}
+					if nm := calleeName(cc); (nm == "io.WriteString" || nm == "io.Copy" || nm == "fmt.Fprint" || nm == "fmt.Fprintf") && len(cc.Args) > 0 && isUnder(cc.Args[0]) {
+						writes = true
+					}
+					if writes && root.Name() != "flush" {
+						bad = append(bad, fmt.Sprintf("%s: %s writes body bytes to the client", c.P.Pos(ins.Pos()), funcDisplay(g)))
+					}
+				}
+			}
+		}
+		sort.Strings(bad)
+		c.R.Check(len(bad) == 0 && n >= 5, rule, "rest/handler.cryptionResponseWriter#one-ciphertext", "body bytes reach the client only from the deferred flush, as one base64(ECB) unit (no method streams encrypted pieces earlier)", "-", fmt.Sprintf("%d methods; %v", n, bad), bad, n)
+	}
+	c.R.Min(rule, 5, "LimitCryptionHandler closure, Write (2), flush, one-ciphertext")
 }
 
 // c18keysPerGroup (R8): the decrypters a route group verifies against are exactly that group's configured keys: the
